@@ -419,7 +419,9 @@ def gen_stream(tier, rng, frontends=("pandas", "numpy", "netcdf", "xarray"), fau
             entries = []
             streams = ["v1"] + (["v2"] if len(cols) > 1 and rng.random() < 0.6 else [])
             if rng.random() < 0.15:
-                streams.append("nope")          # stream id absent from the data
+                streams.insert(rng.randint(0, len(streams)), "nope")   # stream id absent from the data, anywhere in the order
+            if rng.random() < 0.3:
+                streams.reverse()
             for sname in streams:
                 tests = rng.sample(["probe_test", "probe_test_b", "probe_needs_z", "probe_needs_t"], rng.randint(1, 2))
                 for tname in tests:
